@@ -1346,6 +1346,10 @@ func (e *Engine) eval(s *state, fr *frame, v ssa.Value) *Term {
 	case *ssa.FieldAddr:
 		base := e.val(s, fr, x.X)
 		st := x.X.Type().Underlying().(*types.Pointer).Elem().Underlying().(*types.Struct)
+		if base.Kind == "call" {
+			// a pointer returned by a call is dereferenced here (nil on that call's error paths for many APIs)
+			s.emit(Event{Kind: "fieldaddr", Callee: st.Field(x.Field).Name(), Recv: base, Pos: x.Pos(), Ctx: fr.ctx, Depth: fr.depth, InFn: fr.fn})
+		}
 		return mk("faddr", st.Field(x.Field).Name(), 0, x.Type(), base)
 	case *ssa.Field:
 		base := e.val(s, fr, x.X)
